@@ -162,7 +162,24 @@ impl Client {
     }
     /// a response HEADERS frame on `sid` whose block starts with the static-table `:status 200`
     fn got_200(&self, sid: u32) -> bool {
-        self.frames.iter().any(|f| f.ty == 1 && f.sid == sid && f.payload.first() == Some(&0x88))
+        self.frames.iter().any(|f| {
+            if f.ty != 1 || f.sid != sid {
+                return false;
+            }
+            // skip HPACK dynamic-table-size updates (001xxxxx, RFC 7541 6.3) in front of the block
+            let p = &f.payload;
+            let mut i = 0;
+            while i < p.len() && p[i] & 0xE0 == 0x20 {
+                if p[i] & 0x1f == 0x1f {
+                    i += 1;
+                    while i < p.len() && p[i] & 0x80 != 0 {
+                        i += 1;
+                    }
+                }
+                i += 1;
+            }
+            p.get(i) == Some(&0x88)
+        })
     }
 }
 
@@ -1166,6 +1183,205 @@ fn run_history(bed: &Bed, h: &History, model: &[String]) -> Verdict {
     v
 }
 
+// ---------------------------------------------- receive-limits family ----
+
+/// "Peer SETTINGS must not change sozu's receive limits": after a SETTINGS frame
+/// from the peer (its own MAX_FRAME_SIZE, INITIAL_WINDOW_SIZE, MAX_CONCURRENT_STREAMS,
+/// HEADER_TABLE_SIZE, MAX_HEADER_LIST_SIZE, ENABLE_PUSH ...), frames at and just
+/// above the limits sozu *advertises* get the verdict the Lean models give for
+/// the advertised values (`psettings` / `cdecode` / `cframe`).
+fn settings_variants() -> Vec<(String, Vec<(u16, u32)>)> {
+    let v = |n: &str, e: &[(u16, u32)]| (n.to_string(), e.to_vec());
+    vec![
+        v("none", &[]),
+        v("max_frame_size_16384", &[(5, 16384)]),
+        v("max_frame_size_65536", &[(5, 65536)]),
+        v("max_frame_size_max", &[(5, (1 << 24) - 1)]),
+        v("initial_window_1", &[(4, 1)]),
+        v("initial_window_max", &[(4, 0x7fff_ffff)]),
+        v("max_concurrent_streams_1", &[(3, 1)]),
+        v("max_concurrent_streams_1000", &[(3, 1000)]),
+        v("header_table_size_0", &[(1, 0)]),
+        v("header_table_size_1m", &[(1, 1 << 20)]),
+        v("max_header_list_size_10", &[(6, 10)]),
+        v("max_header_list_size_max", &[(6, u32::MAX)]),
+        v("enable_push_0", &[(2, 0)]),
+        v("enable_push_1", &[(2, 1)]),
+        v("everything", &[(5, (1 << 24) - 1), (4, 1), (3, 1), (6, 10), (1, 0), (2, 0), (77, 5)]),
+        // invalid values: the SETTINGS frame itself is a connection error
+        v("invalid_max_frame_size_16383", &[(5, 16383)]),
+        v("invalid_max_frame_size_2p24", &[(5, 1 << 24)]),
+        v("invalid_enable_push_2", &[(2, 2)]),
+        v("invalid_initial_window_2p31", &[(4, 0x8000_0000)]),
+    ]
+}
+
+fn settings_payload(e: &[(u16, u32)]) -> Vec<u8> {
+    let mut p = vec![];
+    for (id, v) in e {
+        p.extend(id.to_be_bytes());
+        p.extend(v.to_be_bytes());
+    }
+    p
+}
+
+#[derive(Clone, Copy, PartialEq, Debug)]
+enum Probe {
+    UnknownAtLimit,
+    UnknownAboveLimit,
+    UnknownFarAbove,
+    DataAtLimit,
+    DataAboveLimit,
+    DataFarAbove,
+    ThreeFullData,
+    StreamLimit,
+    PlainRequest,
+}
+
+const PROBES: [Probe; 9] = [
+    Probe::UnknownAtLimit,
+    Probe::UnknownAboveLimit,
+    Probe::UnknownFarAbove,
+    Probe::DataAtLimit,
+    Probe::DataAboveLimit,
+    Probe::DataFarAbove,
+    Probe::ThreeFullData,
+    Probe::StreamLimit,
+    Probe::PlainRequest,
+];
+
+impl Probe {
+    /// the frame whose verdict the Lean decoder gives (None: judged otherwise)
+    fn frame(self) -> Option<Vec<u8>> {
+        let big = |ty: u8, sid: u32, n: usize| frame(ty, 0, sid, &vec![0x61u8; n]);
+        match self {
+            Probe::UnknownAtLimit => Some(big(0x42, 0, 16384)),
+            Probe::UnknownAboveLimit => Some(big(0x42, 0, 16385)),
+            Probe::UnknownFarAbove => Some(big(0x42, 0, 70000)),
+            Probe::DataAtLimit => Some(big(0, 1, 16384)),
+            Probe::DataAboveLimit => Some(big(0, 1, 16385)),
+            Probe::DataFarAbove => Some(big(0, 1, 70000)),
+            _ => None,
+        }
+    }
+    fn needs_open_stream(self) -> bool {
+        matches!(self, Probe::DataAtLimit | Probe::DataAboveLimit | Probe::DataFarAbove | Probe::ThreeFullData)
+    }
+}
+
+fn run_limits_case(bed: &Bed, vname: &str, entries: &[(u16, u32)], probe: Probe, model_settings: &str, model_probe: &[String]) -> Verdict {
+    let mut v = Verdict { fails: vec![], known: vec![], tags: vec![], observed: String::new() };
+    let name = format!("limits:{vname}:{probe:?}");
+    let fail = |v: &mut Verdict, class: &str, detail: String| v.fails.push((class.to_string(), format!("{name}: {detail}")));
+    let front = if probe == Probe::StreamLimit { bed.front_limit2 } else { bed.front };
+    let mut c = match Client::connect(front).and_then(|mut c| c.handshake().map(|_| c)) {
+        Ok(c) => c,
+        Err(e) => {
+            fail(&mut v, "handshake-failed", e);
+            return v;
+        }
+    };
+    // ---- the peer's SETTINGS
+    if !entries.is_empty() {
+        let acks_before = c.count(4, true);
+        c.send(&frame(4, 0, 0, &settings_payload(entries)));
+        let end = c.read_until(CASE_DEADLINE, |fs| fs.iter().filter(|f| f.ty == 4 && f.flags & 1 != 0).count() > acks_before || fs.iter().any(|f| f.ty == 7));
+        let observed = match c.goaway() {
+            Some(g) => format!("cerr {g}"),
+            None if end == End::Matched => "ack".to_string(),
+            None => "silent".to_string(),
+        };
+        let m = model_settings.split(' ').take(if model_settings.starts_with("ack") { 1 } else { 2 }).collect::<Vec<_>>().join(" ");
+        v.tags.push(format!("limits:settings:{vname}={observed}"));
+        if observed != m {
+            fail(&mut v, "peer-settings-verdict-differs-from-model", format!("model `{model_settings}`, observed `{observed}`"));
+            return v;
+        }
+        if observed != "ack" {
+            if vname == "invalid_initial_window_2p31" {
+                // RFC 9113 6.5.2: values above 2^31-1 MUST be FLOW_CONTROL_ERROR (3)
+                v.known.push(("initial-window-size-overflow-not-flow-control-error".into(), observed != "cerr 3"));
+            }
+            return v;
+        }
+    }
+    // ---- the probe
+    let sync = [0xE0, 1, 2, 3, 4, 5, 6, 7];
+    let mut bytes = vec![];
+    if probe.needs_open_stream() {
+        bytes.extend(frame(1, 0x4, 1, &request_block(true, "/hold/limits")));
+    }
+    match probe {
+        Probe::ThreeFullData => {
+            for _ in 0..3 {
+                bytes.extend(frame(0, 0, 1, &vec![0x62u8; 16384]));
+            }
+        }
+        Probe::StreamLimit => {
+            for sid in [1u32, 3, 5] {
+                bytes.extend(frame(1, 0x5, sid, &request_block(false, "/hold/limits")));
+            }
+        }
+        Probe::PlainRequest => bytes.extend(frame(1, 0x5, 1, &request_block(false, "/"))),
+        p => bytes.extend(p.frame().unwrap()),
+    }
+    bytes.extend(frame(6, 0, 0, &sync));
+    c.send(&bytes);
+    let end = c.read_until(CASE_DEADLINE, |fs| (ping_acked(fs, &sync) && (probe != Probe::PlainRequest || fs.iter().any(|f| f.ty == 1 && f.sid == 1))) || fs.iter().any(|f| f.ty == 7));
+    let goaway = c.goaway();
+    let acked = ping_acked(&c.frames, &sync);
+    v.observed = format!("end {end:?}, goaway {goaway:?}, ping acked {acked}, rst {:?}", c.rst_codes());
+    let obs = v.observed.clone();
+    let changed = if entries.is_empty() { "receive-limit-wrong" } else { "receive-limit-changed-by-peer-settings" };
+    match probe {
+        Probe::StreamLimit => {
+            // model: cframe 1, 3, 5 on a limit-2 connection
+            let refused: Vec<u32> = c.rst_codes().iter().filter(|(_, code)| *code == 7).map(|(s, _)| *s).collect();
+            let want: Vec<u32> = [1u32, 3, 5].iter().zip(model_probe).filter(|(_, m)| m.as_str() == "serr 7").map(|(s, _)| *s).collect();
+            v.tags.push(format!("limits:stream_limit:refused={refused:?}"));
+            if goaway.is_some() || !acked || refused != want {
+                fail(&mut v, changed, format!("model refuses {want:?}, observed refused {refused:?}; {obs}"));
+            }
+        }
+        Probe::PlainRequest => {
+            if goaway.is_some() || !c.got_200(1) {
+                fail(&mut v, changed, format!("a plain request is not served; {obs}"));
+            }
+        }
+        Probe::ThreeFullData => {
+            if goaway.is_some() || !acked || !c.rst_codes().is_empty() {
+                fail(&mut v, changed, format!("48 KiB of DATA inside the advertised 65535-byte window refused; {obs}"));
+            }
+        }
+        _ => {
+            let m = model_probe.first().cloned().unwrap_or_default();
+            v.tags.push(format!("limits:{probe:?}:model-{}={}", m.split(' ').take(2).collect::<Vec<_>>().join("_").replace("ok_66", "ok").replace("ok_0", "ok"), match goaway { Some(g) => format!("goaway{g}"), None => if acked { "served".into() } else { "silent".to_string() } }));
+            if let Some(code) = m.strip_prefix("err ") {
+                let code: u32 = code.parse().unwrap_or(99);
+                if goaway.is_none() && !acked && end == End::Closed {
+                    // sozu answered and closed while the rest of the oversize frame was still being
+                    // written: the kernel resets the connection and the GOAWAY can be lost with it.
+                    // Released, not wedged; the code is checked by the runs where it arrives.
+                    v.tags.push("limits:closed-before-goaway-was-read".into());
+                } else if goaway.is_none() && !acked {
+                    fail(&mut v, "connection-wedged-after-oversize-frame", format!("model `{m}`; {obs}"));
+                } else if goaway != Some(code) {
+                    fail(&mut v, "oversize-frame-not-frame-size-error", format!("model `{m}`; {obs}"));
+                } else if c.read_until(CASE_DEADLINE, |_| false) != End::Closed {
+                    fail(&mut v, "connection-not-released-after-goaway", obs);
+                }
+            } else if m.starts_with("ok ") {
+                if goaway.is_some() || !acked {
+                    fail(&mut v, changed, format!("model `{}`; {obs}", &m[..m.len().min(40)]));
+                }
+            } else {
+                fail(&mut v, "model-gave-no-verdict", m);
+            }
+        }
+    }
+    v
+}
+
 // -------------------------------------------------------------------- main ----
 
 struct Verdict {
@@ -1501,6 +1717,64 @@ fn main() {
             }
         }
     }
+    // ---- receive-limits family: peer SETTINGS vs the limits sozu advertises
+    {
+        let variants = settings_variants();
+        let mut jobs: Vec<(usize, Probe)> = vec![];
+        for (vi, (vname, entries)) in variants.iter().enumerate() {
+            let invalid = vname.starts_with("invalid");
+            for p in PROBES {
+                if invalid && p != Probe::PlainRequest {
+                    continue;
+                }
+                let _ = entries;
+                let n = format!("limits:{vname}:{p:?}");
+                if replaying && !replay_names.iter().any(|x| *x == n) {
+                    continue;
+                }
+                jobs.push((vi, p));
+            }
+        }
+        let mut linput = String::new();
+        for (k, (vi, p)) in jobs.iter().enumerate() {
+            linput.push_str(&format!("#case {k}\nnew\npsettings {}\n", hex(&settings_payload(&variants[*vi].1))));
+            match p.frame() {
+                Some(f) => linput.push_str(&format!("cdecode {}\n", hex(&f))),
+                None if *p == Probe::StreamLimit => linput.push_str("cnew 2\ncframe 1 headers 1\ncframe 3 headers 1\ncframe 5 headers 1\n"),
+                None => {}
+            }
+        }
+        let mut lmodel: Vec<Vec<String>> = vec![];
+        for l in run_model(&args.driver, &linput) {
+            if l.starts_with("#case ") {
+                lmodel.push(vec![]);
+            } else if let Some(last) = lmodel.last_mut() {
+                if l != "new" && l != "cnew" {
+                    last.push(l);
+                }
+            }
+        }
+        for (k, (vi, p)) in jobs.iter().enumerate() {
+            let m = lmodel.get(k).cloned().unwrap_or_default();
+            let (vname, entries) = &variants[*vi];
+            let v = run_limits_case(&bed, vname, entries, *p, m.first().map(|x| x.as_str()).unwrap_or(""), if m.len() > 1 { &m[1..] } else { &[] });
+            evaluations += 1;
+            nontrivial += 1;
+            for t in &v.tags {
+                *dist.entry(t.clone()).or_insert(0) += 1;
+            }
+            *dist.entry("kind:limits".into()).or_insert(0) += 1;
+            for (class, detail) in &v.fails {
+                push_fail(&mut failures, class, detail, vec![format!("h2conn limits:{vname}:{p:?}")]);
+            }
+            for (class, reproduced) in &v.known {
+                known.push(json!({"class": class, "reproduced": reproduced, "detail": format!("limits:{vname}")}));
+            }
+        }
+        if !bed.worker.alive().is_alive() {
+            push_fail(&mut failures, "worker-died-or-wedged", "after the receive-limits family", vec![]);
+        }
+    }
     // ---- history family: frame sequences on one connection vs the Lean history model
     let histories: Vec<History> = build_histories(args.seed, thorough)
         .into_iter()
@@ -1597,7 +1871,7 @@ fn finish(args: &Args, evaluations: u64, nontrivial: u64, failures: &[Value], kn
         "seed": args.seed,
         "evaluations": evaluations,
         "distinct_nontrivial": nontrivial,
-        "rule": "black box: one real worker (HTTPS listener, H1 backend), one TLS+h2 client connection per case: a complete random/corner frame after the settings exchange followed by a PING (verdict: the Lean decoder's: err c => GOAWAY(c), exact on stream 0 and for oversize, any of PROTOCOL/STREAM_CLOSED/FRAME_SIZE or a stream error when stream state is consulted first; ok => answered, never silence), PING/SETTINGS/WINDOW_UPDATE/CONTINUATION floods with the trip point predicted by the Lean flood model (acknowledged-frame count compared), empty-DATA and rapid-reset floods, zero increment, window overflow, stray CONTINUATION, 120 unanswered requests vs the advertised 100-stream limit, first-SETTINGS payloads vs the model's first_settings; flood-variant family: every flood kind in its wire-level variants (empty DATA unpadded / PADDED pad 0 / pad 5 / pad 255 / mixed, on an open and on a closed stream; PING plain / odd flags / ACK / mixed; SETTINGS empty / known entries / unknown ids / ACK / mixed; WINDOW_UPDATE stream 0 with small increments, reserved bit, flags; CONTINUATION with empty fragments after an empty or 2-byte HEADERS fragment; WINDOW_UPDATE / RST_STREAM / DATA floods on a closed stream (glitch counter); PRIORITY / PRIORITY_UPDATE / unknown-type floods, which no counter looks at) - the trip point is computed by the Lean model (decoded frame -> frameEvents -> detector) and the connection is driven once to one frame below it (must be served) and once exactly to it (must get GOAWAY(ENHANCE_YOUR_CALM) and be closed); history family: frame sequences (new requests that the backend never answers, DATA with/without END_STREAM, WINDOW_UPDATE, RST_STREAM, PRIORITY, HEADERS on used/refused ids) on one connection of the limit-2 listener, a PING after every frame, the answer to each frame compared with the Lean history model connStep; stream-state family on a listener with h2_max_concurrent_streams=2: DATA/HEADERS/WINDOW_UPDATE/RST_STREAM/PRIORITY/CONTINUATION on a stream id that is idle (above every used id), implicitly closed (below), closed by END_STREAM (equal to / below the last id), closed by the peer's RST_STREAM, refused by the stream limit, refused while draining after SoftStop's GOAWAY (own worker), half-closed (remote), open - sent after the scene is established and in one batch with it, random odd ids in thorough; judged by an RFC 9113 5.1 table written here and compared exactly with the Lean table `headerVerdict`; afterwards a slot is freed and a new stream on the same connection must be answered 200; after a GOAWAY the connection must be closed; worker.alive(), a long-lived good connection and a fresh probe connection must keep being served",
+        "rule": "black box: one real worker (HTTPS listener, H1 backend), one TLS+h2 client connection per case: a complete random/corner frame after the settings exchange followed by a PING (verdict: the Lean decoder's: err c => GOAWAY(c), exact on stream 0 and for oversize, any of PROTOCOL/STREAM_CLOSED/FRAME_SIZE or a stream error when stream state is consulted first; ok => answered, never silence), PING/SETTINGS/WINDOW_UPDATE/CONTINUATION floods with the trip point predicted by the Lean flood model (acknowledged-frame count compared), empty-DATA and rapid-reset floods, zero increment, window overflow, stray CONTINUATION, 120 unanswered requests vs the advertised 100-stream limit, first-SETTINGS payloads vs the model's first_settings; flood-variant family: every flood kind in its wire-level variants (empty DATA unpadded / PADDED pad 0 / pad 5 / pad 255 / mixed, on an open and on a closed stream; PING plain / odd flags / ACK / mixed; SETTINGS empty / known entries / unknown ids / ACK / mixed; WINDOW_UPDATE stream 0 with small increments, reserved bit, flags; CONTINUATION with empty fragments after an empty or 2-byte HEADERS fragment; WINDOW_UPDATE / RST_STREAM / DATA floods on a closed stream (glitch counter); PRIORITY / PRIORITY_UPDATE / unknown-type floods, which no counter looks at) - the trip point is computed by the Lean model (decoded frame -> frameEvents -> detector) and the connection is driven once to one frame below it (must be served) and once exactly to it (must get GOAWAY(ENHANCE_YOUR_CALM) and be closed); receive-limits family: after peer SETTINGS (its MAX_FRAME_SIZE 16384 / 65536 / 2^24-1, INITIAL_WINDOW_SIZE 1 / 2^31-1, MAX_CONCURRENT_STREAMS 1 / 1000, HEADER_TABLE_SIZE, MAX_HEADER_LIST_SIZE, ENABLE_PUSH, all together with an unknown id; invalid values judged by the Lean handleSettings) frames at and above the limits sozu advertises - unknown-type and DATA frames of 16384 / 16385 / 70000 bytes sent in full, 3 full DATA frames inside the advertised window, 3 requests on the limit-2 listener, a plain request - must get the verdict of the Lean decoder (cdecode with the local bound) / history model, then a PING ACK or the GOAWAY; history family: frame sequences (new requests that the backend never answers, DATA with/without END_STREAM, WINDOW_UPDATE, RST_STREAM, PRIORITY, HEADERS on used/refused ids) on one connection of the limit-2 listener, a PING after every frame, the answer to each frame compared with the Lean history model connStep; stream-state family on a listener with h2_max_concurrent_streams=2: DATA/HEADERS/WINDOW_UPDATE/RST_STREAM/PRIORITY/CONTINUATION on a stream id that is idle (above every used id), implicitly closed (below), closed by END_STREAM (equal to / below the last id), closed by the peer's RST_STREAM, refused by the stream limit, refused while draining after SoftStop's GOAWAY (own worker), half-closed (remote), open - sent after the scene is established and in one batch with it, random odd ids in thorough; judged by an RFC 9113 5.1 table written here and compared exactly with the Lean table `headerVerdict`; afterwards a slot is freed and a new stream on the same connection must be answered 200; after a GOAWAY the connection must be closed; worker.alive(), a long-lived good connection and a fresh probe connection must keep being served",
         "samples": samples,
         "traces_validated_against_impl": evaluations - failures.len() as u64,
         "disagreements_checked": evaluations,
